@@ -280,17 +280,20 @@ def family_error_codes(idem):
 
 
 def family_gates_metafail(idem):
-    """P4b: fresh input parked during a retry, the leader lookup FAILS when the parked level is flushed (the parked
-    messages are failed), then a second retriable bounce on the same partition"""
+    """P4b: the leader lookup fails both when the bounced message is to be forwarded and when the parked level is
+    flushed (all of them are failed with an error), then the partition recovers and bounces a second time: nothing
+    that was failed may come back"""
     out = []
     for rmax in (2, 3):
         cfg = dict(idem=idem, retryMax=rmax, leaders=[1], nbrokers=1)
         gates = [{"name": "fin_at_bp", "point": "bp.recv", "flags": "fin", "retries": -1, "part": -1, "hwm": -1},
                  {"name": "parked", "point": "pp.recv", "flags": "none", "retries": 0, "part": -1, "hwm": 1}]
-        pl = {"1": {"part": {"0": "retry"}}, "3": {"part": {"0": "retry"}}}
-        steps = submits([(1, 0)]) + [{"op": "wait_gate", "name": "fin_at_bp"}] + submits([(2, 0), (3, 0)])
-        steps += [{"op": "wait_gate", "name": "parked"}, {"op": "release_gate", "name": "parked"}, {"op": "sleep", "ms": 10},
-                  {"op": "meta_fail", "n": 3}, {"op": "release_gate", "name": "fin_at_bp"}, {"op": "wait_outcomes", "n": 3, "ms": 3000}]
+        pl = {"1": {"hold": True, "part": {"0": "retry"}}, "2": {"part": {"0": "retry"}}}
+        steps = submits([(1, 0)]) + [{"op": "wait_req", "n": 1, "ms": 1500}, {"op": "meta_fail", "n": 50}, {"op": "release", "n": 1},
+                                     {"op": "wait_gate", "name": "fin_at_bp"}, {"op": "wait_outcomes", "n": 1, "ms": 2000}]
+        steps += submits([(2, 0), (3, 0)])
+        steps += [{"op": "wait_gate", "name": "parked"}, {"op": "release_gate", "name": "parked"}, {"op": "sleep", "ms": 15},
+                  {"op": "release_gate", "name": "fin_at_bp"}, {"op": "wait_outcomes", "n": 3, "ms": 3000}, {"op": "meta_fail", "n": 0}]
         steps += submits([(4, 0), (5, 0)]) + [{"op": "wait_outcomes", "n": 5, "ms": 3000}] + submits([(6, 0)])
         steps += [{"op": "wait_outcomes", "n": 6, "ms": 3000}, {"op": "close"}]
         out.append(sc("gate-metafail-r%d" % rmax, "gates", cfg, steps, pl, gates))
